@@ -365,6 +365,33 @@ fn cmd_autosizes<T: Raw>(t: &mut Toks) -> String {
   s
 }
 
+// bigchunk <dt> <level> <order> <count> : header, then one chunk of `count` numbers (two values
+// alternating in long runs); reports the result kind, byte_size before/after, and for an accepted
+// chunk whether the finished file decodes to the same count
+fn cmd_bigchunk<T: Raw>(t: &mut Toks) -> String where T::Signed: Raw, T::Unsigned: UParse {
+  let level = t.usize();
+  let order = t.usize();
+  let count = t.usize();
+  let a = T::from_unsigned(T::Unsigned::parse_u("3"));
+  let b = T::from_unsigned(T::Unsigned::parse_u("1"));
+  let xs: Vec<T> = (0..count).map(|i| if (i / 1000) % 2 == 0 { a } else { b }).collect();
+  let mut c = Compressor::<T>::from_config(config(level, order, true));
+  c.header().unwrap();
+  let before = c.byte_size();
+  match c.chunk(&xs) {
+    Err(e) => format!("{} size {} -> {}", err_str(&e), before, c.byte_size()),
+    Ok(m) => {
+      c.footer().unwrap();
+      let bytes = c.drain_bytes();
+      let res = match q_compress::auto_decompress::<T>(&bytes) {
+        Ok(ys) => format!("decoded={} equal={}", ys.len(), ys.len() == xs.len() && ys.iter().zip(xs.iter()).all(|(p, q)| p.num_eq(q))),
+        Err(e) => err_str(&e),
+      };
+      format!("ok n={} {}", m.n, res)
+    }
+  }
+}
+
 fn cmd_simple<T: Raw>(t: &mut Toks) -> String {
   let level = t.usize();
   let order = t.usize();
@@ -477,6 +504,7 @@ fn dispatch<T: Raw + Send + Sync>(cmd: &str, t: &mut Toks) -> String where T::Si
     "chunkbytes" => cmd_chunkbytes::<T>(t),
     "autosizes" => cmd_autosizes::<T>(t),
     "bigrun" => cmd_bigrun::<T>(t),
+    "bigchunk" => cmd_bigchunk::<T>(t),
     "fibcounts" => cmd_fibcounts::<T>(t),
     "auto" => cmd_auto::<T>(t),
     "rdec" => cmd_rdec::<T>(t),
